@@ -70,13 +70,16 @@ def generate(ctx):
         lines = [f"file A_{nm} {bts.hex()}" for nm, bts in a["files"].items()] + [f"file B_{nm} {bts.hex()}" for nm, bts in b["files"].items()]
         lines += ["new cab"] + [f"open i0 A_{nm}" for nm in an] + [f"open i0 B_{nm}" for nm in bn]
         na = len(an)
-        scen = rng.choice(["same", "joined", "circular"] + (["cross", "cross", "cross"] if cross_ok else []))
+        scen = rng.choice(["same", "joined", "circular"] + (["circular3", "circular3"] if na >= 3 else []) + (["cross", "cross", "cross"] if cross_ok else []))
         if scen == "same":
             pre = []; bad = f"append i0 h0 h0"; watch = [0]
         elif scen == "joined":
             pre = ["append i0 h0 h1"]; bad = rng.choice(["append i0 h0 h1", "prepend i0 h1 h0"]); watch = [0, 1]
         elif scen == "circular":
             pre = ["append i0 h0 h1"]; bad = rng.choice(["append i0 h1 h0", "prepend i0 h0 h1"]); watch = [0, 1]
+        elif scen == "circular3":
+            # the circle closes over a longer chain, not between direct neighbours
+            pre = ["append i0 h0 h1", "append i0 h1 h2"]; bad = rng.choice(["append i0 h2 h0", "prepend i0 h0 h2"]); watch = [0, 2]
         else:
             # last part of set A with the second part of set B (different set: split folders cannot match)
             # first part of set A (its last folder continues) with the second part of set B (its first folder is a continuation)
@@ -84,7 +87,9 @@ def generate(ctx):
         lines += pre + [f"dump i0 h{w}" for w in watch] + [bad] + [f"dump i0 h{w}" for w in watch]
         # both still separately closable
         closes = []
-        if scen in ("joined", "circular"):
+        if scen == "circular3":
+            closes = ["close i0 h0"] + [f"close i0 h{j}" for j in range(3, na)] + [f"close i0 h{na + j}" for j in range(len(bn))]
+        elif scen in ("joined", "circular"):
             closes = ["close i0 h0"] + [f"close i0 h{j}" for j in range(2, na)] + [f"close i0 h{na + j}" for j in range(len(bn))]
         else:
             closes = [f"close i0 h{j}" for j in range(na)] + [f"close i0 h{na + j}" for j in range(len(bn))]
